@@ -121,7 +121,8 @@ class Component( ComponentLevel7 ):
 
   def _add_component( s, parent, name, indices, obj, provided_connections,
                       provided_upblk_reads, provided_upblk_writes, provided_upblk_calls,
-                      provided_func_reads,  provided_func_writes, provided_func_calls ):
+                      provided_func_reads,  provided_func_writes, provided_func_calls,
+                      provided_constraints = () ):
     try:
       top = s._dsl.elaborate_top
     except AttributeError:
@@ -248,6 +249,23 @@ class Component( ComponentLevel7 ):
 
     for blk, obj_name in provided_upblk_calls:
       parent._dsl.upblk_calls[blk].add( eval(obj_name) )
+      top._dsl.all_upblk_calls[blk].add( eval(obj_name) )
+
+    # Put the parent's explicit constraints back on the ports of the new component
+    for cons in provided_constraints:
+      if cons[0] == 'M':
+        _, x, y, is_equal = cons
+        x = eval(x) if isinstance( x, str ) else x
+        y = eval(y) if isinstance( y, str ) else y
+        parent._dsl.M_constraints.add( (x, y, is_equal) )
+        top._dsl.all_M_constraints.add( (x, y, is_equal) )
+      else:
+        kind, var_name, var_cons = cons
+        var = eval(var_name)
+        local, glob = ( parent._dsl.RD_U_constraints, top._dsl.all_RD_U_constraints ) if kind == 'RD' else \
+                      ( parent._dsl.WR_U_constraints, top._dsl.all_WR_U_constraints )
+        local[var] |= var_cons
+        glob[var]  |= var_cons
 
     for func, obj_name in provided_func_reads:
       parent._dsl.func_reads[func].add( eval(obj_name) )
@@ -365,14 +383,18 @@ class Component( ComponentLevel7 ):
             saved_upblk_writes.append( (blk, repr(x)) )
         parent._dsl.upblk_writes[blk] -= to_save
 
+      # A CL/FL interface of the removed component may be called as a whole
+      removed_callees = removed_connectables | foo._collect_all_single( lambda x: isinstance( x, Interface ) )
+
       for blk, calls in parent._dsl.upblk_calls.items():
         assert blk in top._dsl.all_upblk_calls
         to_save = set()
         for x in calls:
-          if x in removed_connectables:
+          if x in removed_callees:
             to_save.add( x )
             saved_upblk_calls.append( (blk, repr(x)) )
         parent._dsl.upblk_calls[blk] -= to_save
+        top._dsl.all_upblk_calls[blk] -= to_save
 
       # We need to save the information for funcs too
       for func, reads in parent._dsl.func_reads.items():
@@ -394,10 +416,31 @@ class Component( ComponentLevel7 ):
       for func, calls in parent._dsl.func_calls.items():
         to_save = set()
         for x in calls:
-          if x in removed_connectables:
+          if x in removed_callees:
             to_save.add( x )
             saved_func_calls.append( (func, repr(x)) )
         parent._dsl.func_calls[func] -= to_save
+
+      # Explicit constraints the parent declared on ports / methods of the
+      # removed component: RD(s.c.out) < U(blk), M(s.c.recv) < U(blk), ...
+      saved_constraints = []
+      for kind, local, glob in ( ( 'RD', parent._dsl.RD_U_constraints, top._dsl.all_RD_U_constraints ),
+                                 ( 'WR', parent._dsl.WR_U_constraints, top._dsl.all_WR_U_constraints ) ):
+        for var in [ v for v in local if v in removed_connectables ]:
+          cons = local.pop( var )
+          if var in glob:
+            glob[var] -= cons
+            if not glob[var]:
+              del glob[var]
+          saved_constraints.append( ( kind, "top"+repr(var)[1:], cons ) )
+
+      if hasattr( parent._dsl, 'M_constraints' ):
+        for (x, y, is_equal) in list( parent._dsl.M_constraints ):
+          if x in removed_callees or y in removed_callees:
+            parent._dsl.M_constraints.discard( (x, y, is_equal) )
+            top._dsl.all_M_constraints.discard( (x, y, is_equal) )
+            saved_constraints.append( ( 'M', "top"+repr(x)[1:] if x in removed_callees else x,
+                                             "top"+repr(y)[1:] if y in removed_callees else y, is_equal ) )
 
       saved_connections = []
       saved_loopbacks   = set()
@@ -469,7 +512,7 @@ class Component( ComponentLevel7 ):
       parent._dsl.connect_order = new_connect_order
 
       return saved_connections, saved_upblk_reads, saved_upblk_writes, saved_upblk_calls, \
-             saved_func_reads, saved_func_writes, saved_func_calls
+             saved_func_reads, saved_func_writes, saved_func_calls, saved_constraints
 
     return _delete_component_internal( top, obj )
     # import gc
@@ -723,7 +766,7 @@ class Component( ComponentLevel7 ):
     foo_indices = foo._dsl._my_indices
 
     saved_connections, saved_upblk_reads, saved_upblk_writes, saved_upblk_calls, \
-      saved_func_reads, saved_func_writes, saved_func_calls = top._delete_component( foo )
+      saved_func_reads, saved_func_writes, saved_func_calls, saved_constraints = top._delete_component( foo )
 
     new_obj = cls( *foo._dsl.args, **foo._dsl.kwargs )
 
@@ -732,7 +775,7 @@ class Component( ComponentLevel7 ):
     # to new_obj
     top._add_component( parent, foo_name, foo_indices, new_obj, saved_connections,
                         saved_upblk_reads, saved_upblk_writes, saved_upblk_calls,
-                        saved_func_reads, saved_func_writes, saved_func_calls)
+                        saved_func_reads, saved_func_writes, saved_func_calls, saved_constraints)
 
     top._flush_pending_value_connections()
     top._flush_pending_method_connections()
@@ -747,14 +790,14 @@ class Component( ComponentLevel7 ):
     foo_indices = foo._dsl._my_indices
 
     saved_connections, saved_upblk_reads, saved_upblk_writes, saved_upblk_calls, \
-      saved_func_reads, saved_func_writes, saved_func_calls = top._delete_component( foo )
+      saved_func_reads, saved_func_writes, saved_func_calls, saved_constraints = top._delete_component( foo )
 
     # We actually don't need to merge param tree here because when we call
     # _add_component, the parameters stored in parent will be pushed down
     # to new_obj
     top._add_component( parent, foo_name, foo_indices, new_obj, saved_connections,
                         saved_upblk_reads, saved_upblk_writes, saved_upblk_calls,
-                        saved_func_reads, saved_func_writes, saved_func_calls)
+                        saved_func_reads, saved_func_writes, saved_func_calls, saved_constraints)
 
     top._flush_pending_value_connections()
     top._flush_pending_method_connections()
